@@ -13,6 +13,11 @@ wave 2:
   ev <now> create <signed-µs>        (a negative timeout runs as 0: `clampTimeout`)
   ev <now> stop <id> | savestate | loadstate      (savestate: always ok; stores the instances that have a session)
   qmicros w d h m s ms us            -> <Int>   (unit values in QUARTERS; timedelta rounds half to even)
+wave 5 (the clock advances inside a request):
+  cfg stampExact 0|1                 -> ok
+  evr <t> <i1,i2,…|-> <event…>       -> <reply>;reads=<n>     (read n of the request returns t+i1+…+in; `reads` =
+                                        number of clock reads the model performs, compared with the real code's)
+     with no increments the request is also run through `step2` at clock `t`: a difference prints `bad-refine`
   live is printed by ascending id and the ids destroyed by ONE request in ascending order (dict / directory
   listing order after a load-state is not part of the model)
 -/
@@ -58,6 +63,14 @@ structure DS where
   c : Cfg
   s : State
   shown : List Nat     -- the destroy log as printed so far
+  stampExact : Bool := true
+
+def parseIncs (x : String) : Option (List Nat) :=
+  if x == "-" then some [] else (x.splitOn ",").mapM (·.toNat?)
+
+def sameState (a b : State) : Bool :=
+  a.insts == b.insts && a.stored == b.stored && a.destroyed == b.destroyed && a.restored == b.restored &&
+  a.next == b.next && a.dropped == b.dropped
 
 def stepLine (d : DS) (line : String) : DS × String :=
   let c := d.c
@@ -65,7 +78,19 @@ def stepLine (d : DS) (line : String) : DS × String :=
   match line.trimAscii.toString.splitOn " " with
   | ["cfg", "keepAliveRestores", v] =>
       if v == "1" || v == "0" then ({ d with c := { c with keepAliveRestores := v == "1" } }, "ok") else (d, "bad-op")
+  | ["cfg", "stampExact", v] =>
+      if v == "1" || v == "0" then ({ d with stampExact := v == "1" }, "ok") else (d, "bad-op")
   | ["new"] => ({ d with s := State.init, shown := [] }, "ok")
+  | "evr" :: t :: incs :: rest =>
+      match t.toNat?, parseIncs incs, parseEv2 rest with
+      | some t, some incs, some e =>
+        let cr : CfgR := { keepAliveRestores := c.keepAliveRestores, stampExact := d.stampExact }
+        let (s', ok, n) := stepR cr (rdOf t incs) s e
+        let (s2, ok2) := step2 c s t e
+        if incs.isEmpty && d.stampExact && !(sameState s' s2 && ok == ok2) then (d, "bad-refine") else
+        let (out, shown') := reply s' ok d.shown
+        ({ d with s := s', shown := shown' }, out ++ s!";reads={n}")
+      | _, _, _ => (d, "bad-op")
   | ["qmicros", w, dd, h, m, sec, ms, us] =>
       match w.toInt?, dd.toInt?, h.toInt?, m.toInt?, sec.toInt?, ms.toInt?, us.toInt? with
       | some w, some dd, some h, some m, some sec, some ms, some us => (d, toString (quarterMicros w dd h m sec ms us))
